@@ -35,6 +35,7 @@ package snowflake_proxy
 //@ ghost var hostOK bool
 //@ ghost var lastCount int64
 //@ ghost var atSelect bool
+//@ ghost var handoverOpen bool
 //@ ghost var recvs0 mathint
 //
 // runSession owns one slot on entry. It releases it exactly once on every path, except when the client opened the
@@ -52,11 +53,19 @@ package snowflake_proxy
 //@   at call select ghost recvs0 = recvs(dataChan)
 //@   at call ret assert {never-releases-a-slot-it-does-not-hold} slot >= 1
 //@   at call ret ghost slot = slot - 1
+//   Once the answer has been delivered the remote client can open its data channel at any moment, and the
+//   OnDataChannel callback then starts a handler that returns the slot. From that point runSession may return the slot
+//   itself only after it has atomically excluded the callback (handoverOpen: the callback may still take the slot).
+//@   at entry ghost handoverOpen = false
+//@   after call sendAnswer ghost handoverOpen = ret0 == nil
+//   (the hand-over is closed by winning the claim the callback also needs: sync.Once runs exactly one of the two)
+//@   after call Do ghost handoverOpen = false if timedOut
+//@   at call ret assert {no-release-while-the-data-channel-handler-may-still-take-the-slot} !handoverOpen
 //@   after call IsMember ghost hostOK = ret0
 //@   at call NewNameMatcher assert {own-pattern} arg0 == sf.RelayDomainNamePattern
 //@   at call makePeerConnectionFromOffer assert {relay-url-gate} relayURL == "" || (hostOK && (sf.AllowNonTLSRelay || parsedRelayURL.Scheme == "wss"))
 //@   at call makePeerConnectionFromOffer assert {handler-gets-the-checked-url} dataChannelAdaptor.RelayURL == relayURL && dataChannelAdaptor.sf == sf
-//@   ensures {slot-released-once-or-handed-to-the-data-channel-handler} slot == 0 || (slot == 1 && atSelect && recvs(dataChan) == recvs0 + 1)
+//@   ensures {slot-released-once-or-handed-to-the-data-channel-handler} slot == 0 || (slot == 1 && atSelect && (recvs(dataChan) == recvs0 + 1 || (oncedone(&claim) && handoverOpen)))
 //
 //@ func (sf *SnowflakeProxy) datachannelHandler(conn *webRTCConn, remoteAddr net.Addr, relayURL string)
 //@   props C16, C06
@@ -84,12 +93,13 @@ package snowflake_proxy
 //
 // The OnDataChannel callback: pion invokes it once per data channel the REMOTE client chooses to open, so it must be
 // safe under repeated invocation (no precondition), and it starts at most one handler per peer connection
-// (one slot, one handler).
+// (one slot, one handler), and none at all once runSession has claimed the session on timeout (the same sync.Once).
 //@ func (sf *SnowflakeProxy) makePeerConnectionFromOffer$1(dc *webrtc.DataChannel)
 //@   props C16, C13
 //@   flag nosafety safety-close
-//@   assumes dataChan != nil && (closed(dataChan) ==> oncedone(&dataChanOnce))
+//@   assumes dataChan != nil && claim != nil && (closed(dataChan) ==> oncedone(claim))
 //@   ensures {at-most-one-handler-per-peer-connection} spawns(handler) <= 1 && (spawns(handler) == 1 ==> !old(closed(dataChan)))
+//@   ensures {handler-only-by-winning-the-claim} spawns(handler) == 1 ==> !old(oncedone(claim)) && oncedone(claim)
 //
 // Untrusted SDP (C13): extracting the peer address from ANY SDP text returns an address or nil and cannot panic
 // (safety sweep on: nil candidate, submatch index).
